@@ -555,7 +555,11 @@ impl Connection {
                 ack_eliciting |= self.can_send_1rtt(frame_space_1rtt);
             }
 
-            pad_datagram_to_mtu |= space_id == SpaceId::Data && self.config.pad_to_mtu;
+            // Only datagrams carrying ack-eliciting (application) data are padded. A padded
+            // ACK-only packet would count towards bytes in flight without ever being
+            // acknowledged on its own, eventually filling the congestion window for good.
+            pad_datagram_to_mtu |=
+                space_id == SpaceId::Data && self.config.pad_to_mtu && ack_eliciting;
 
             // Can we append more data into the current buffer?
             // It is not safe to assume that `buf.len()` is the end of the data,
